@@ -807,7 +807,11 @@ C12.manifest = {
             "== modularity_abs over the node names and get_all_edges (weight 1 per edge when unweighted); "
             "C12_modularity_reachable - hence q == Newman's formula over get_all_edges for every partition (real weights "
             "when weighted, total weight non-zero); C12_not_partition_iff_reachable - modularity returns Err k IFF k = "
-            "NotAPartition and the family is not a partition (so no other error kind, whatever the weights).",
+            "NotAPartition and the family is not a partition (so no other error kind, whatever the weights); "
+            "C12_modularity_degenerate_reachable - the remaining values of a partition: total weight 0 with non-negative "
+            "weights (edgeless graphs in particular) gives NaN (0 for the empty family on the empty graph), an edge "
+            "without weight under weighted = true gives NaN - so modularity() is determined on every reachable graph with "
+            "non-negative weights.",
     "note": "The theorems are about the list-level computations of Spec/PartitionDef.v (node list + weighted edge "
             "multiset). The twelve-field state model (Model/Partition.v: get_subgraph, size, the degree maps of "
             "Model/Query.v) is what the correspondence compares with the implementation (is_partition value, outcome "
@@ -815,8 +819,8 @@ C12.manifest = {
             "list-level computation and Newman's formula is PROVED since round 2 (item 3 of the text, from WF via "
             "get_subgraph_content, get_{out,in}_edges_for_node_spec, get_edges_for_node_spec) and is in addition still "
             "evaluated on every generated case (observation 210, kept as a tie between model and code). Not covered "
-            "by a theorem: the value on graphs whose total weight is 0 or whose weights contain NaN under weighted = "
-            "true (the model returns NaN there, compared with the implementation per case; proved only: never an Err). "
+            "by a theorem: total weight 0 reached with NEGATIVE weights (x/0 with x != 0 is +-inf in binary64; the "
+            "model maps it to a named Panic 'outside the modelled domain', never generated). "
             "Independent oracle: Newman's formula recomputed in "
             "Python (fractions) from the implementation's get_all_edges, and the set-theoretic partition test. Weights in "
             "generated cases are NaN or small integers (exact in binary64); negative weights / infinite intermediate "
